@@ -92,6 +92,13 @@ example : (runFrom true ⟨false, 2, 1000⟩ initState
     [(0, .workerExits), (1, .hang), (2, .late .equal "m"), (3, .bareStatus .equal), (4, .hang)]).1.servedBy = [0, 1, 2, 3, 3] := by
   decide
 
+/-- results the parent cannot read back are served by a live worker and COUNT towards the recycle rate: at rate 2 the third
+replay runs on a fresh worker -/
+example : (runFrom true ⟨false, 2, 1000⟩ initState
+    [(0, .unreadable .equal "m" "e"), (1, .unreadable .equal "m" "e"), (2, .bareStatus .equal),
+     (3, .unreadable .fixed "m" "e")]).1.servedBy = [0, 0, 1, 1] := by
+  decide
+
 example : (stateAfter ⟨false, 2, 1000⟩ [(0, .bareStatus .equal), (1, .hang), (2, .bareStatus .equal)] 1).live = [0] := by
   decide
 
